@@ -383,7 +383,26 @@ func runC13(ctx *h.Ctx) int {
 		}
 		k.Count("accepted_pairs", 1)
 		if r1.Out != r2.Out {
-			k.Violation("", "output with constants differs from the output with every use replaced by the expanded value", map[string]interface{}{"with_constants": r1.Out, "substituted": r2.Out, "substituted_source": p2.Src})
+			det := map[string]interface{}{"with_constants": r1.Out, "substituted": r2.Out, "substituted_source": p2.Src}
+			msg := "output with constants differs from the output with every use replaced by the expanded value"
+			both := func() (h.Result, h.Result, string, string) {
+				a := spec.Print(prog)
+				a.Layout(spec.LayoutOpts{})
+				b := spec.PrintExpanded(prog, expand)
+				b.Layout(spec.LayoutOpts{})
+				return h.Compile(a.Src, optsOf(prog, opt)), h.Compile(b.Src, optsOf(prog, opt)), a.Src, b.Src
+			}
+			differs := func() bool {
+				a, b, _, _ := both()
+				return a.OK() && b.OK() && a.Out != b.Out
+			}
+			if differs() {
+				shrinkProgram(prog, differs, 300)
+				a, b, sa, sb := both()
+				det["minimal_source"], det["minimal_substituted_source"] = sa, sb
+				msg += "\nreduced witness:\n" + sa + "--- compiled:\n" + a.Out + "\n--- with values written out:\n" + sb + "--- compiled:\n" + b.Out
+			}
+			k.Violation("", msg, det)
 			return
 		}
 		var sig strings.Builder
